@@ -64,6 +64,13 @@ pub fn render(v: &ArgVal, ty: &Ty, out: &mut String) {
             let (id, name) = v.as_ustruct();
             let _ = write!(out, "UserS {{ id: {}, name: {:?} }}", id, name);
         }
+        Ty::UPoint => {
+            let t = v.as_tup();
+            let _ = write!(out, "UserP {{ x: {}, y: {} }}", t[0].as_u() as u32, t[1].as_u() as u16);
+        }
+        Ty::UWrap => {
+            let _ = write!(out, "UserW({})", v.as_tup()[0].as_u() as u8);
+        }
         Ty::UEnum => {
             let (var, x, s) = v.as_uenum();
             match var {
